@@ -16,9 +16,9 @@ func init() {
 		Title:       "Packet boundaries come from length fields, not from transport segmentation",
 		DesignRef:   "DESIGN.md §3 C08",
 		Technique:   "necessary conditions of a correct stream framer decided on readMessage/readHeader/ReadPacket: compiler BCE listing + guard discharge for every slice, one-sided-comparison rule for bytes beyond the declared size, bounded-copy rule for fixed scratch buffers, error-origin rule for reassembly, sibling agreement of the two ReadPacket implementations",
-		LevelText:   "Static, necessary conditions only: (1) every slice/index expression of the framing functions is in-bounds under its dominating guards (in particular the payload slice needs 8 <= size <= len(data)); (2) the framer handles 'fewer bytes than declared' so it must also handle 'more than declared' — bytes past the declared size must be kept or excluded by an equality; (3) a copy into a fixed-size scratch buffer must be bounded or its count checked; (4) an error return of the framer may stem from the transport or an inconsistent header, not from 'still incomplete'; (5) both transports return n == len(p). Independence from segmentation itself (same packets for every cut of the stream) is a for-all-schedules statement that needs a rewritten framer's loop invariant and is not decided. (2)-(4) are violated by today's one-shot defragmenter and recorded as known findings.",
+		LevelText:   "Static, necessary conditions only: (1) every slice/index expression of the framing functions is in-bounds under its dominating guards (in particular the payload slice needs 8 <= size <= len(data)); (2) the framer handles 'fewer bytes than declared' so it must also handle 'more than declared' — bytes past the declared size must be kept or excluded by an equality; (3) a copy into a fixed-size scratch buffer must be bounded or its count checked; (4) an error return of the framer may stem from the transport or an inconsistent header, not from 'still incomplete'; (5) both transports return n == len(p), and each packet read is one whole library read (one ReadMessage; one Read of the bufio.Reader that Hijack returned, so bytes net/http buffered are not skipped). Independence from segmentation itself (same packets for every cut of the stream) is a for-all-schedules statement that needs a rewritten framer's loop invariant and is not decided. (2)-(4) are violated by today's one-shot defragmenter and recorded as known findings.",
 		LevelNote:   "Trusted: Go compiler prove pass, transports' library reads. Known findings: readMessage drops coalesced packets, truncates fragments above 4096 bytes, and ends the tunnel on a packet split over three reads.",
-		Explanation: "C08/bounds restricts the A8 bounds obligations to the framing functions. C08/remainder checks the accepting return of readHeader. C08/bounded-copy inventories builtin copy calls into fixed-size buffers. C08/reassembly classifies readMessage's error returns by the origin of the returned error. C08/transport-contract checks each return of both ReadPacket implementations.",
+		Explanation: "C08/bounds restricts the A8 bounds obligations to the framing functions. C08/remainder checks the accepting return of readHeader. C08/bounded-copy inventories builtin copy calls into fixed-size buffers. C08/reassembly classifies readMessage's error returns by the origin of the returned error. C08/transport-contract checks each return of both ReadPacket implementations. C08/transport-source checks which library read feeds them.",
 		Assumptions: []string{"a websocket message or chunk read may carry any number of bytes of the packet stream"},
 		Rules: []RuleDef{
 			{"C08/bounds", "every compiler-unproven slice/index of the framing functions is discharged", c08Bounds},
@@ -26,6 +26,7 @@ func init() {
 			{"C08/bounded-copy", "copies into a fixed-size scratch buffer are bounded or their count is checked", c08BoundedCopy},
 			{"C08/reassembly", "the framer returns an error only for transport errors or an inconsistent header, not for 'still incomplete'", c08Reassembly},
 			{"C08/transport-contract", "both ReadPacket implementations return n == len(p) (or 0 with an error)", c08TransportContract},
+			{"C08/transport-source", "a packet read is one whole transport read: one ReadMessage / one Read of the buffered chunked body", func(c *Ctx) { transportRules(c, "C08/transport-source", false); c.Floor("C08/transport-source", 3, "two reads, constructor") }},
 		},
 	})
 }
